@@ -82,7 +82,7 @@ package mqtt
 //@   ensures[C12] qos0_no_handle: qos0 == QoS0 ==> !isRetryErr(result) && evCount("publishImpl$2") == 0
 //@   ensures[C01,C19] interrupted: sig0 != nil && qos0 > QoS0 && result != nil && result != io.EOF ==> isRetryErr(result)
 //@   ensures[C02,C12] stage1: evCount("publishImpl$2") == 0 && isRetryErr(result) ==>
-//@        closureIs(retryOf(result), "publishImpl$1") && *closureVar[**Message](retryOf(result), "publishImpl$1", 0) == message
+//@        closureIs(retryOf(result), "publishImpl$1") && *closureVarN[**Message](retryOf(result), "publishImpl$1", "message") == message
 //@   ensures[C02,C12] stage2: evCount("publishImpl$2") == 1 ==> result == evRet[error]("publishImpl$2", 0, 0) && qos0 == QoS2
 //@   ensures[C02,C07] rec_first: evCount("publishImpl$2") == 1 ==> evCount("select") == 1 && evRet[int]("select", 0, 0) == 2 &&
 //@        evIndex("(*BaseClient).write", 0) < evIndex("select", 0) && evIndex("select", 0) < evIndex("publishImpl$2", 0)
@@ -120,13 +120,13 @@ package mqtt
 //@   requires cli != nil && ctx != nil && message != nil && cli.Transport != nil
 //@   note closure invariant (established where the closure is created, checked at its direct call in publishImpl): the captured
 //@   note variable retryPublish2 holds the PUBREL-stage closure over this very message
-//@   requires closureIs(retryPublish2, "publishImpl$2") && *closureVar[**Message](retryPublish2, "publishImpl$2", 0) == message
+//@   requires closureIs(retryPublish2, "publishImpl$2") && *closureVarN[**Message](retryPublish2, "publishImpl$2", "message") == message
 //@   assigns nothing
 //@   let sig0 *signaller = cli.sig
 //@   ensures[C02,C12] only_pubrel: evCount("(*pktPublish).Pack") == 0 && evCount("publishImpl") == 0 && evCount("(*BaseClient).write") <= 1 &&
 //@        (evCount("(*BaseClient).write") == 1 ==> seqEq(evBytes("(*BaseClient).write", 0, 1), specAck(0x62, message.ID)))
 //@   ensures[C02,C12] stage: isRetryErr(result) ==> closureIs(retryOf(result), "publishImpl$2") &&
-//@        *closureVar[**Message](retryOf(result), "publishImpl$2", 0) == message
+//@        *closureVarN[**Message](retryOf(result), "publishImpl$2", "message") == message
 //@   ensures[C01,C19] interrupted: sig0 != nil && result != nil && result != io.EOF ==> isRetryErr(result)
 //@   ensures[C01,C07,C12,C19] on_given_client: (evCount("(*BaseClient).write") == 1 ==> evArg[*BaseClient]("(*BaseClient).write", 0, 0) == cli) &&
 //@        (evCount("mapstore:map<uint16,chan *pktPubComp>") == 1 ==> sameMap(evArg[map[uint16]chan *pktPubComp]("mapstore:map<uint16,chan *pktPubComp>", 0, 0), sig0.chPubComp))
@@ -171,7 +171,7 @@ package mqtt
 //@   ensures[C07] granted: result1 == nil ==> len(result0) == n0 && len(evRet[*pktSubAck]("select", 0, 4).Codes) == n0 &&
 //@        forall(0, n0, func(j int) bool { return result0[j].QoS == QoS(evRet[*pktSubAck]("select", 0, 4).Codes[j]) }) && sameSlice(result0, subs)
 //@   ensures[C01,C19] interrupted: sig0 != nil && result1 != nil && result1 != io.EOF && !(evCount("select") == 1 && evRet[int]("select", 0, 0) == 2) ==> isRetryErr(result1)
-//@   ensures[C01,C19] handle: isRetryErr(result1) ==> closureIs(retryOf(result1), "subscribeImpl$1") && sameSlice(*closureVar[*[]Subscription](retryOf(result1), "subscribeImpl$1", 0), subs)
+//@   ensures[C01,C19] handle: isRetryErr(result1) ==> closureIs(retryOf(result1), "subscribeImpl$1") && sameSlice(*closureVarN[*[]Subscription](retryOf(result1), "subscribeImpl$1", "subs"), subs)
 //@   ensures[C11] waitset: evCount("select") == 1 ==> evRet[int]("select", 0, 0) >= 0 && evArg[chan struct{}]("select", 0, 0) == c.connClosed &&
 //@        evArg[<-chan struct{}]("select", 0, 1) == evRet[<-chan struct{}]("context.Context.Done", 0, 0) && evArg[context.Context]("context.Context.Done", 0, 0) == ctx
 //@   ensures[C11] no_bare_block: evCount("recv") == 0 && evCount("send") == 0
@@ -210,7 +210,7 @@ package mqtt
 //@        evArg[chan *pktUnsubAck]("select", 0, 2) == evArg[chan *pktUnsubAck]("mapstore:map<uint16,chan *pktUnsubAck>", 0, 2) &&
 //@        evIndex("(*BaseClient).write", 0) < evIndex("select", 0)
 //@   ensures[C01,C19] interrupted: sig0 != nil && result != nil && result != io.EOF ==> isRetryErr(result)
-//@   ensures[C01,C19] handle: isRetryErr(result) ==> closureIs(retryOf(result), "unsubscribeImpl$1") && sameSlice(*closureVar[*[]string](retryOf(result), "unsubscribeImpl$1", 0), subs)
+//@   ensures[C01,C19] handle: isRetryErr(result) ==> closureIs(retryOf(result), "unsubscribeImpl$1") && sameSlice(*closureVarN[*[]string](retryOf(result), "unsubscribeImpl$1", "subs"), subs)
 //@   ensures[C11] waitset: evCount("select") == 1 ==> evRet[int]("select", 0, 0) >= 0 && evArg[chan struct{}]("select", 0, 0) == c.connClosed &&
 //@        evArg[<-chan struct{}]("select", 0, 1) == evRet[<-chan struct{}]("context.Context.Done", 0, 0) && evArg[context.Context]("context.Context.Done", 0, 0) == ctx
 //@   ensures[C11] no_bare_block: evCount("recv") == 0 && evCount("send") == 0
